@@ -1,6 +1,6 @@
 (* C18 — property theorems only: each restates the full statement and is closed by the lemma proved in Proofs/. *)
 From Coq Require Import ZArith List Bool.
-From NPS Require Import ListAux PySlice NumpySem Scatter BuildIdx XorBroadcast View Index Assign Reduce Scan RaOps Heap Hash HashRun BitArr RLE RLEOps RLE2d DataClass RowsSpec AssignSpec MapSpec Denote DataClassProof.
+From NPS Require Import ListAux PySlice NumpySem Scatter BuildIdx XorBroadcast View Index Assign Reduce Scan RaOps Heap Hash HashRun BitArr RLE RLEOps RLE2d DataClass RowsSpec AssignSpec MapSpec Denote DataClassProof DataClassAstype.
 Import ListNotations.
 Open Scope Z_scope.
 
@@ -43,3 +43,26 @@ Theorem C18_varlen_rows :
        concat (map (map (fun r : list Z => repeat 0 (Z.to_nat (W - zlen r)) ++ r)) blocks).
 Proof. exact varlen_rows. Qed.
 Print Assumptions C18_varlen_rows.
+
+Theorem C18_obj_astype_entries :
+  forall (E : Type) (d : E) (k : nat) (R : list (list E)) (keep : list nat),
+       Forall (fun j : nat => (j < k)%nat) keep ->
+       obj_astype E (cols E d k R) keep =
+       Ok (map (fun j : nat => map (fun row : list E => nth j row d) R) keep).
+Proof. exact obj_astype_entries. Qed.
+Print Assumptions C18_obj_astype_entries.
+
+Theorem C18_obj_astype_refused :
+  forall (E : Type) (d : E) (k : nat) (R : list (list E)) (keep : list nat) (j : nat),
+       In j keep -> (k <= j)%nat -> obj_astype E (cols E d k R) keep = Refused.
+Proof. exact obj_astype_refused. Qed.
+Print Assumptions C18_obj_astype_refused.
+
+Theorem C18_obj_astype_item :
+  forall (E : Type) (d : E) (k : nat) (R : list (list E)) (keep : list nat) (i : Z),
+       keep <> [] ->
+       Forall (fun j : nat => (j < k)%nat) keep ->
+       rbind (obj_astype E (cols E d k R) keep) (fun o' : obj E => obj_item E o' i) =
+       rmap (fun row : list E => map (fun j : nat => nth j row d) keep) (np_item R i).
+Proof. exact obj_astype_item. Qed.
+Print Assumptions C18_obj_astype_item.
